@@ -45,3 +45,17 @@ void h_noteOff(void)
     noteOff(c);
     REACH(g_tap[0].val == 5, "channel 5");
 }
+
+OpnTimbre in_timbre;
+void h_setPatch(void)
+{
+    size_t c = nondet_size(); g_synth.m_insCache = g_insCache_storage; g_synth.m_regLFOSens = g_regLFOSens_storage; in_c = c; in_nchips = g_synth.m_numChips;
+    setPatch(c, &in_timbre);
+    REACH(c == 11, "channel 11 (second chip, port 1)"); REACH(g_tap[29].val == 0xC5, "b4 value");
+}
+void h_setPan(void)
+{
+    size_t c = nondet_size(); uint8_t v = nondet_u8(); g_synth.m_insCache = g_insCache_storage; g_synth.m_regLFOSens = g_regLFOSens_storage; in_c = c;
+    setPan(c, v);
+    REACH(g_synth.m_softPanning, "soft"); REACH(!g_synth.m_softPanning && v == 47, "hard left only"); REACH(!g_synth.m_softPanning && v == 80, "hard right only");
+}
